@@ -78,6 +78,7 @@ Qed.
 (* ------------------------------------------------------------------ validate_ast *)
 Variable rules : list prule.
 Variable fuel0 : nat.
+Variables lrf tgf : bool.
 Hypothesis RO : Forall (rule_ok text) rules.
 
 Lemma lookup_in : forall rs n r, lookup rs n = Some r -> In r rs.
@@ -126,9 +127,12 @@ Proof. destruct v; cbn; auto; try contradiction. intros _ H. specialize (H a). d
 Lemma span_err_ok k n : node_ok text n -> sloc_ok (snd (span_err k n)).
 Proof. intros H. cbn. apply node_ok_span. exact H. Qed.
 
-Lemma check_expr_ok : forall fuel trace e, trace <> [] -> node_ok text e -> chk_ok (check_expr rules fuel0 fuel trace e).
+Lemma check_expr_ok : forall fuel trace e, trace <> [] -> node_ok text e -> chk_ok (check_expr rules fuel0 lrf fuel trace e).
 Proof.
   induction fuel as [|f IH]; intros trace e T N; [exact I|]. cbn [check_expr].
+  assert (OR : forall (v : vres (option err)) (g : vres (option err)), chk_ok v -> chk_ok g ->
+            chk_ok (vbind v (fun x => match x with Some er => VOk (Some er) 0 | None => g end))).
+  { intros v g Hv Hg. destruct v as [[er|] n| |]; cbn; auto. destruct g as [[e2|] m| |]; cbn; auto. }
   induction e; cbn [node_ok] in N; try exact I.
   - (* Ident *)
     destruct trace as [|t0 tr]; [congruence|].
@@ -139,23 +143,30 @@ Proof.
   - apply chk_tick. apply IHe. tauto.
   - (* Seq *)
     destruct (rev trace) as [|lst r0] eqn:R; [apply (f_equal (@rev _)) in R; rewrite rev_involutive in R; cbn in R; congruence|].
-    apply chk_tick. apply chk_bind; [apply nfail_np|]. intros b1. apply chk_bind; [destruct b1; [exact I|apply nprog_np]|].
-    intros b2. destruct b2; [apply IHe2|apply IHe1]; tauto.
+    destruct lrf.
+    + apply chk_tick. apply OR; [apply IHe1; tauto|].
+      apply chk_bind; [apply nfail_np|]. intros b1. apply chk_bind; [destruct b1; [exact I|apply nprog_np]|].
+      intros b2. destruct b2; [apply IHe2; tauto|exact I].
+    + apply chk_tick. apply chk_bind; [apply nfail_np|]. intros b1. apply chk_bind; [destruct b1; [exact I|apply nprog_np]|].
+      intros b2. destruct b2; [apply IHe2|apply IHe1]; tauto.
   - (* Choice *)
-    apply chk_tick. assert (C1 : chk_ok ((fix go (e : pnode) : vres (option err) := _) e1)) by (apply IHe1; tauto).
-    revert C1. match goal with |- chk_ok ?v -> _ => destruct v as [[er|] n| |] end; cbn; auto; intros C1.
-    assert (C2 : chk_ok ((fix go (e : pnode) : vres (option err) := _) e2)) by (apply IHe2; tauto).
-    revert C2. match goal with |- chk_ok ?v -> _ => destruct v as [[er|] m| |] end; cbn; auto.
+    apply chk_tick. apply OR; [apply IHe1|apply IHe2]; tauto.
   - apply chk_tick. apply IHe. tauto.
   - apply chk_tick. apply IHe. tauto.
   - apply chk_tick. apply IHe. tauto.
+  - destruct lrf; [apply chk_tick; apply IHe; tauto|exact I].
+  - destruct lrf; [apply chk_tick; apply IHe; tauto|exact I].
+  - destruct lrf; [apply chk_tick; apply IHe; tauto|exact I].
+  - destruct lrf; [apply chk_tick; apply IHe; tauto|exact I].
   - apply chk_tick. apply IHe. tauto.
+  - destruct lrf; [apply chk_tick; apply IHe; tauto|exact I].
 Qed.
 
-Lemma top_down_ok : forall e, node_ok text e -> Forall (node_ok text) (top_down e).
+Lemma top_down_ok : forall e, node_ok text e -> Forall (node_ok text) (top_down tgf e).
 Proof.
   induction e; cbn [top_down node_ok]; intros N; constructor; try (cbn [node_ok]; exact N); try constructor;
     try (apply IHe; tauto); try (apply Forall_app; split; [apply IHe1|apply IHe2]; tauto).
+  destruct tgf; [apply IHe; tauto|constructor].
 Qed.
 
 Definition errs_v (v : vres (list err)) : Prop := match v with VOk l _ => serrs_ok l | VPanic => False | VFuel => True end.
@@ -172,7 +183,7 @@ Proof.
   apply chk_bind2; [apply H; left; reflexivity|]. intros x Hx. apply errs_bind2; [apply IH; intros; apply H; right; assumption|].
   intros r Hr. cbn. destruct x; [constructor|]; auto.
 Qed.
-Lemma over_rules_ok chk : (forall n, node_ok text n -> chk_ok (chk n)) -> forall rs, Forall (rule_ok text) rs -> errs_v (over_rules chk rs).
+Lemma over_rules_ok chk : (forall n, node_ok text n -> chk_ok (chk n)) -> forall rs, Forall (rule_ok text) rs -> errs_v (over_rules tgf chk rs).
 Proof.
   intros H. induction rs as [|r rs IH]; intros F; cbn [over_rules]; [constructor|]. inversion F as [|? ? Fr Frs]; subst.
   apply errs_bind2.
@@ -206,7 +217,7 @@ Proof.
     apply chk_bind; [apply nprog_np|]. intros [|]; cbn; auto. apply node_ok_span; exact N.
   - intros x Hx. apply errs_bind2; [apply IH; auto|]. intros b Hb. cbn. destruct x; [constructor|]; auto.
 Qed.
-Lemma lr_rules_ok : forall rs seen, errs_v (lr_rules rules fuel0 seen rs).
+Lemma lr_rules_ok : forall rs seen, errs_v (lr_rules rules fuel0 lrf seen rs).
 Proof.
   induction rs as [|r rs IH]; intros seen; cbn [lr_rules]; [constructor|].
   destruct (mem (pname r) seen); [apply IH|].
@@ -235,7 +246,7 @@ Proof.
   eexists; split; [reflexivity|]. apply insert_sorted_ok; auto.
 Qed.
 
-Theorem validate_ast_ok builtins ex : errs_v (validate_ast rules fuel0 builtins ex).
+Theorem validate_ast_ok builtins ex : errs_v (validate_ast rules fuel0 lrf tgf builtins ex).
 Proof.
   unfold validate_ast.
   apply errs_bind2; [apply over_rules_ok; [apply rep_check_ok|exact RO]|]. intros e1 H1.
